@@ -2,6 +2,7 @@ package nut12
 
 import (
 	"encoding/hex"
+	"errors"
 
 	"github.com/decred/dcrd/dcrec/secp256k1/v4"
 	"github.com/elnosh/gonuts/cashu"
@@ -105,15 +106,23 @@ func ParseDLEQ(dleq cashu.DLEQProof) (
 	*secp256k1.PrivateKey,
 	error,
 ) {
+	// scalars are exactly 32 bytes: PrivKeyFromBytes would silently ignore
+	// anything that follows, and an altered proof would still verify
 	ebytes, err := hex.DecodeString(dleq.E)
 	if err != nil {
 		return nil, nil, nil, err
+	}
+	if len(ebytes) != 32 {
+		return nil, nil, nil, errors.New("invalid length of e in DLEQ proof")
 	}
 	e := secp256k1.PrivKeyFromBytes(ebytes)
 
 	sbytes, err := hex.DecodeString(dleq.S)
 	if err != nil {
 		return nil, nil, nil, err
+	}
+	if len(sbytes) != 32 {
+		return nil, nil, nil, errors.New("invalid length of s in DLEQ proof")
 	}
 	s := secp256k1.PrivKeyFromBytes(sbytes)
 
@@ -124,6 +133,9 @@ func ParseDLEQ(dleq cashu.DLEQProof) (
 	rbytes, err := hex.DecodeString(dleq.R)
 	if err != nil {
 		return nil, nil, nil, err
+	}
+	if len(rbytes) != 32 {
+		return nil, nil, nil, errors.New("invalid length of r in DLEQ proof")
 	}
 	r := secp256k1.PrivKeyFromBytes(rbytes)
 
